@@ -44,13 +44,33 @@ def is_msg(l):
     return isinstance(l, list) and l and isinstance(l[0], dict) and 's' in l[0]
 
 
+def tok_any(j):
+    """token(s) of whatever the code under test put into the score (never raises)"""
+    try:
+        if isinstance(j, list):
+            return ' '.join([f'L{len(j)}'] + [tok_any(x) for x in j])
+        if j is None or isinstance(j, (bool, int)) or (isinstance(j, dict) and ('f' in j or 's' in j)):
+            return tok(j)
+    except Exception:
+        pass
+    return '?' + repr(j)[:40].replace(' ', '_')
+
+
 def tok_score_bundle(b):
-    """list form of a score entry: times are printed as D<p/q>:0 whatever their Python type"""
+    """list form of a score entry: times are printed as D<p/q>:0 whatever their Python type;
+    anything unexpected (a None time, an odd object) is printed as it is, never an exception"""
+    if not isinstance(b, list) or not b:
+        return tok_any(b)
     t = b[0]
-    tv = Fr(t['f']) if isinstance(t, dict) else Fr(int(t))
-    parts = [f'L{len(b)}', f'D{tv.numerator}/{tv.denominator}:0']
+    if isinstance(t, dict) and 'f' in t:
+        head = f'D{Fr(t["f"]).numerator}/{Fr(t["f"]).denominator}:0'
+    elif isinstance(t, int) and not isinstance(t, bool):
+        head = f'D{t}/1:0'
+    else:
+        head = 'TIME:' + tok_any(t)
+    parts = [f'L{len(b)}', head]
     for e in b[1:]:
-        parts.append(tok(e) if is_msg(e) else tok_score_bundle(e))
+        parts.append(tok_any(e) if is_msg(e) or not isinstance(e, list) else tok_score_bundle(e))
     return ' '.join(parts)
 
 
@@ -122,13 +142,15 @@ class Check(common.Check):
                          {'f': '1/1099511627776'}, {'f': '1099511627777/1099511627776'},    # below the resolution
                          {'f': '3/17179869184'}, {'f': '17179869187/17179869184'}])          # 3/4 of a unit
 
-    def gen_bundle(self, G, depth=0, parent=None, deep=False):
-        L = self.gen_lat(G, parent)
+    def gen_bundle(self, G, depth=0, parent=None, deep=False, imm=False):
+        # under an immediate (None) parent a nested bundle may be immediate too: None at every depth
+        L = None if (imm and G.random() < 0.5) else self.gen_lat(G, parent)
         els = []
         for _ in range(G.choice([1, 1, 2, 3])):
             if depth < 2 and G.random() < (0.6 if deep else 0.25):
                 pl = lat(L)
-                els.append(self.gen_bundle(G, depth + 1, pl if (pl is not None and pl >= 0) else Fr(0), deep))
+                els.append(self.gen_bundle(G, depth + 1, pl if (pl is not None and pl >= 0) else Fr(0), deep,
+                                           imm=L is None))
             else:
                 els.append(self.gen_msg(G))
         return [L] + els
@@ -414,7 +436,10 @@ class Check(common.Check):
             self.impl, self.model = orig_impl, orig_model
 
     def compare(self, case, impl_out, model_out):
-        v = self.view(impl_out)
+        try:
+            v = self.view(impl_out)
+        except Exception as e:
+            return {'impl': f'uninterpretable output: {type(e).__name__}: {e}'}
         if common.canon(v) == common.canon(model_out):
             return None
         for k in v:
@@ -536,6 +561,25 @@ class Check(common.Check):
                 return False
         return True
 
+    def list_vs_raw(self, entry, pkt, where):
+        """every (sub-)bundle listed in the score carries the time its binary form carries"""
+        if not isinstance(entry, list) or not entry or pkt[0] != 'bundle':
+            return f'{where}: listed {str(entry)[:80]} but the binary form is a {pkt[0]}'
+        t = entry[0]
+        tv = Fr(t['f']) if (isinstance(t, dict) and 'f' in t) else (Fr(t) if isinstance(t, int) and not isinstance(t, bool) else None)
+        if tv is None or int(tv * TWO32) != pkt[1]:
+            return (f'{where}: the bundle is listed with time {t if tv is None else fr(tv)} while its binary form carries '
+                    f'timetag {pkt[1]} = {fr(Fr(pkt[1], TWO32))} s')
+        subs = [e for e in entry[1:] if not is_msg(e)]
+        psubs = [e for e in pkt[2] if e[0] == 'bundle']
+        if len(subs) != len(psubs):
+            return f'{where}: {len(subs)} nested bundles listed, {len(psubs)} in the binary form'
+        for j, (e, pe) in enumerate(zip(subs, psubs)):
+            v = self.list_vs_raw(e, pe, f'{where}/nested {j}')
+            if v:
+                return v
+        return None
+
     def check_raw_bundle(self, pkt, exp, where):
         if pkt[0] != 'bundle' or len(pkt[2]) != len(exp) - 1:
             return f'{where}: raw bundle does not have the shape of the list entry'
@@ -552,6 +596,14 @@ class Check(common.Check):
         return None
 
     def oracle(self, case, out):
+        try:
+            return self.oracle1(case, out)
+        except Exception as e:       # an observation the oracle cannot even read is a verdict, not a crash
+            import traceback
+            return {'what': f'the observed behaviour cannot be interpreted ({type(e).__name__}: {e}; '
+                            f'{traceback.format_exc().splitlines()[-3].strip()[:120]})', 'signature': 'c07:uninterpretable'}
+
+    def oracle1(self, case, out):
         rt, nrt = out['rt'], out['nrt']
         if rt['died']:
             return {'what': f'clock thread died: {rt["died"]}', 'signature': 'c07:thread-died'}
@@ -625,6 +677,20 @@ class Check(common.Check):
         # ordered by time, send order within equal times (stable sort of the send sequence)
         expected = [e for _, e in sorted(enumerate(expected), key=lambda p: (p[1][0], p[0]))]
         lst = nrt['list']
+        # list form and binary form of the score agree entry by entry, at every nesting depth
+        raw, pos = bytes.fromhex(nrt['raw']), 0
+        for k, g in enumerate(lst):
+            if pos + 4 > len(raw):
+                break
+            n = struct.unpack('>i', raw[pos:pos + 4])[0]
+            try:
+                pkt = osc10.read_packet(raw[pos + 4:pos + 4 + n])
+            except osc10.Osc10Error:
+                break                              # (reported by the raw checks below)
+            pos += 4 + n
+            v = self.list_vs_raw(g, pkt, f'score entry {k}')
+            if v:
+                return {'what': v, 'signature': 'c07:list-vs-raw'}
         if len(lst) != len(expected):
             return {'what': f'score lists {len(lst)} bundles, the program sent {len(expected) - 2} (+ root + tail)',
                     'signature': 'c07:score-count'}
